@@ -377,7 +377,8 @@ def c13_scenario(S, fmt, ch, rate, rng, count, ids, payloads, late=False, shortb
     T = gen_core.type_for(fmt)
     lc = scen.lossless_class(fmt, T)
     cls, par = lc if lc else ("noise", 0)
-    S.scn(fmt="0x%x" % fmt, ch=ch, T=T, kind="c13", count=count, idlen=min(len(i) for i in ids), late=int(late), **(cfg or {}))
+    tot = sum(payloads[k % len(payloads)] for k in range(count))
+    S.scn(fmt="0x%x" % fmt, ch=ch, T=T, kind="c13", count=count, idlen=min(len(i) for i in ids), late=int(late), tot=tot, **(cfg or {}))
     S.add("file 1 new", "open 0 vio w 1 %d %d %d" % (fmt, ch, rate))
     chunks = []
     for k in range(count):
